@@ -65,9 +65,22 @@ type simpleSvc struct {
 }
 
 func (s *simpleSvc) Call(ctx thrift.Context, arg *gen.Data) (*gen.Data, error) {
+	if i := strings.IndexByte(arg.S2, '|'); i >= 0 {
+		// "<tag>|<padding>": a body of many frames; the answer pads as well
+		tag := arg.S2[:i]
+		s.seenHdr[tag] = ctx.Headers()
+		if rh, ok := s.respHdr[tag]; ok {
+			ctx.SetResponseHeaders(rh)
+		}
+		return &gen.Data{B1: !arg.B1, S2: tag + "/resp|" + arg.S2[i+1:], I3: arg.I3 + 1}, nil
+	}
 	s.seenHdr[arg.S2] = ctx.Headers()
 	if rh, ok := s.respHdr[arg.S2]; ok {
 		ctx.SetResponseHeaders(rh)
+	}
+	if strings.HasPrefix(arg.S2, "big") {
+		// a response of several hundred KiB (the caller has given up long before it is out)
+		return &gen.Data{B1: !arg.B1, S2: longMsg(arg.S2, 300000), I3: arg.I3 + 1}, nil
 	}
 	return &gen.Data{B1: !arg.B1, S2: arg.S2 + "/resp", I3: arg.I3 + 1}, nil
 }
@@ -93,7 +106,14 @@ func famCodec(w *World) {
 	w.NoFault = true
 	w.drawSchedule(false)
 	w.linkDefaults()
-	srv := w.addNode(NodeOpts{Name: "s0", Service: "svc0", Host: "10.0.2.1", Port: 5000, Conn: w.connOptsBig(), Tracer: newSimTracer("s0", 1)})
+	// (a third of the runs: a server whose send buffer holds one frame, so that a handler
+	// writing a large response is still at it when its caller's deadline passes)
+	slowResp := scnChance(1, 3)
+	sco := w.connOptsBig()
+	if slowResp {
+		sco.SendBufferSize = 1
+	}
+	srv := w.addNode(NodeOpts{Name: "s0", Service: "svc0", Host: "10.0.2.1", Port: 5000, Conn: sco, Tracer: newSimTracer("s0", 1)})
 	svc := &simpleSvc{w: w, seenHdr: map[string]map[string]string{}, respHdr: map[string]map[string]string{}}
 	thrift.NewServer(srv.Ch).Register(gen.NewTChanSimpleServiceServer(svc))
 	jsonResp := map[string]map[string]string{}
@@ -190,6 +210,24 @@ func famCodec(w *World) {
 			}
 			w.probe("C18.undecodable-headers-before-concurrent-calls")
 		}
+		if slowResp {
+			// ... or a few calls whose (large) response cannot be written out: the caller's
+			// deadline passes while the server is still pushing it through a slow link. What
+			// the failed writes did to pooled protocol objects must not show afterwards.
+			w.linkHook = func(l *Link) {
+				for d := 0; d < 2; d++ {
+					l.SetCapacity(d, 4<<10)
+					l.SetLatency(d, w.Grid, 0)
+				}
+			}
+			for i, m := 0, 1+scn(3); i < m; i++ {
+				ctx, cancel := thrift.NewContext(time.Duration(3+scn(10)) * w.Grid)
+				client.Call(ctx, &gen.Data{S2: fmt.Sprintf("big%d", i)})
+				cancel()
+			}
+			sleep(500 * w.Grid) // the server's handlers have given up by now
+			w.probe("C18.response-write-failed-before-concurrent-calls")
+		}
 		lanes := 1 + scn(4)
 		var fs []func()
 		for lane := 0; lane < lanes; lane++ {
@@ -211,8 +249,19 @@ func famCodec(w *World) {
 					i, tag, reqH, respH := c.i, c.tag, c.reqH, c.respH
 					ctx, cancel := thrift.NewContext(10 * time.Second)
 					tctx := thrift.WithHeaders(ctx, reqH)
-					res, err := client.Call(tctx, &gen.Data{B1: true, S2: tag, I3: int32(i)})
+					body := tag
+					if slowResp {
+						body = tag + "|" + longMsg(tag, 70000+int(fnv(tag)%80000)) // many frames each way
+					}
+					res, err := client.Call(tctx, &gen.Data{B1: true, S2: body, I3: int32(i)})
 					cancel()
+					if err == nil && slowResp {
+						if j := strings.IndexByte(res.S2, '|'); j < 0 || res.S2[j+1:] != body[len(tag)+1:] {
+							w.violate("C18", "thrift-body", "thrift call %s: the %d-byte body came back altered", tag, len(body))
+						} else {
+							res.S2 = res.S2[:j]
+						}
+					}
 					w.probe("ops.done")
 					w.eval("C18.thrift-headers")
 					if err != nil {
